@@ -422,6 +422,17 @@ func (g *G) listKeys(n int, fs bool) []string {
 			set[k] = true
 		}
 	}
+	if g.chance(0.4) {
+		// bytes whose base64 form uses the two characters that differ between
+		// the standard and the URL alphabet, multi-byte runes, characters that
+		// need escaping in a query string
+		pool := []string{"ba~", "ba~/x", "img/a?", "img/a>b", "fotos/ß→.txt", "tilde~~", "q?", "a~b/c~d", "日本/語", "x&y=z", "pl+us", "pc%41",
+			// runes that share the UTF-8 lead byte of the delimiter 'é'
+			"aéb", "aéc", "aêc", "aüd", "bêy", "xéy/z", "aèb"}
+		for i, n := 0, g.n(1, 6); i < n; i++ {
+			set[pool[g.rng.Intn(len(pool))]] = true
+		}
+	}
 	var keys []string
 	for k := range set {
 		keys = append(keys, k)
